@@ -59,7 +59,17 @@ class Flipped(Envs.DiscreteWorld):
         return self.height, self.width, self.depth
 
 
-SUBCLASSES = {'slab': Slab, 'column': Column, 'flipped': Flipped}
+class Mirrored(Envs.DiscreteWorld):
+    """A user world that takes image-style list data bottom-up: lists handed to add_cell_component are reversed.  That
+    is about the USER's components - the world's own position table is not the user's data."""
+
+    def add_cell_component(self, name, generator):
+        if isinstance(generator, list):
+            generator = generator[::-1]
+        return super().add_cell_component(name, generator)
+
+
+SUBCLASSES = {'slab': Slab, 'column': Column, 'flipped': Flipped, 'mirrored': Mirrored}
 
 
 def mk(model, kind, dims, wrap=False):
@@ -222,7 +232,7 @@ def hist_ops(kind, dims):
     """What can happen to a grid world between two lookups: cell components declared, declared again from a source of
     another element type, removed; an agent sent (move_to) to coordinates next to the grid - accepted on single-layer
     axes, which the spatial range check does not constrain - or moved about inside."""
-    ops = [['level', how] for how in ('int', 'int10', 'float', 'str', 'gen')] + [['rain'], ['drop', 'level'], ['drop', 'rain']]
+    ops = [['level', how] for how in ('int', 'int10', 'float', 'str', 'gen', 'mixed')] + [['rain'], ['drop', 'level'], ['drop', 'rain']]
     # components whose names are not plain public identifiers
     ops += [['named', nm] for nm in ('soil type', 'class', '_hidden', '2nd crop')]
     ops.append(['rebind'])          # the table replaced by a copy of itself (env.cells = env.cells.copy(), to defragment it)
@@ -262,6 +272,8 @@ def history_case(case):
                 src = np.linspace(0.5, n - 0.5, n)
             elif how == 'str':
                 src = ['clay' if i % 2 else 'sand' for i in range(n)]
+            elif how == 'mixed':
+                src = [[i + 1, 'water', 2.5, True][i % 4] if i else 1 for i in range(n)]      # numbers and strings side by side
             else:
                 src = None
                 world.add_cell_component('level', lambda pos, cells: pos[0] - pos[2] + 0.25 * pos[1])
@@ -324,7 +336,7 @@ def history_case(case):
                                     f'the world\'s cell components', expected=sorted(['pos'] + list(cols)),
                                     observed=sorted(row.index))
                 for name, vals in cols.items():
-                    if row[name] != vals[cid]:
+                    if row[name] != vals[cid] or (isinstance(vals[cid], (str, bool)) != isinstance(row[name], (str, bool, np.bool_))):
                         raise Violation(f'after {case["ops"]}: component {name!r} in the row of cell {(x, y, z)} on shape '
                                         f'{dims}', expected=vals[cid], observed=repr(row[name]))
     return queries, ('hist', kind, tuple(dims), tuple(sorted(cols)))
@@ -396,7 +408,7 @@ def run(ctx):
     # user worlds whose get_dimensions() reports something else than (width, height, depth)
     cases += [{'leg': 'shape', 'kind': k, 'dims': d, 'wrap': w} for w in (False, True) for k, d in
               (('slab', [3, 0, 2]), ('slab', [2, 0, 3]), ('slab', [3, 2, 4]), ('column', [0, 0, 4]), ('column', [2, 1, 3]),
-               ('flipped', [3, 2, 2]), ('flipped', [1, 4, 2]))]
+               ('flipped', [3, 2, 2]), ('flipped', [1, 4, 2]), ('mirrored', [3, 2, 2]), ('mirrored', [2, 0, 3]))]
     cases += [{'leg': 'shape', 'kind': k, 'dims': d, 'wrap': False, 'no_model': True} for k, d in
               (('line', [4]), ('grid', [3, 2]), ('discrete', [2, 0, 3]), ('discrete', [2, 2, 2]))]
     cases += [{'leg': 'big', 'kind': 'line', 'dims': [40000]}, {'leg': 'big', 'kind': 'discrete', 'dims': [0, 33000, 0]},
